@@ -39,7 +39,7 @@ def build(b, T, G, np_, shape):
     nblk = shape.get('nblocks', 0)
     blocks = []
     if 'ELEME' in secs:
-        pats = shape.get('name_patterns', ['LLLBD', ' a  1', ' b  2', 'AB1 7'])
+        pats = shape.get('name_patterns', ['LLLBD', ' a  1', 'AB1 7', ' b  2'])   # 'AB1 7' is held as 'AB107' after a read
         for k in range(nblk):
             pat = pats[k % len(pats)]
             nm = b.name('bn%d' % k, pat, info['names'])
